@@ -11,6 +11,7 @@ variable {A : UtxoAlg}
 def bestOf : Commit A → Option Chain
   | .create => some []
   | .connect n _ => some n
+  | .connectPrune n _ _ => some n
   | .disconnect n _ => some n.tail
   | _ => none
 
@@ -30,6 +31,7 @@ theorem apply_best (img : Image A) (c : Commit A) :
     (apply img c).best = img.best ∨ bestOf c = some (apply img c).best := by
   cases c with
   | connect n fl => cases fl <;> exact Or.inr rfl
+  | connectPrune n ps fl => cases fl <;> exact Or.inr rfl
   | create => exact Or.inr rfl
   | disconnect n u => exact Or.inr rfl
   | _ => exact Or.inl rfl
@@ -58,6 +60,7 @@ theorem apply_rows (img : Image A) (c : Commit A) (x : Chain) :
     x ∈ keys (apply img c).rows ↔ x ∈ keys img.rows ∨ x ∈ rowKeysOf c := by
   cases c with
   | connect n fl => cases fl <;> simp [apply, rowKeysOf]
+  | connectPrune n ps fl => cases fl <;> simp [apply, rowKeysOf]
   | create =>
     show x ∈ keys (upsert img.rows [] genesisStatus) ↔ _
     rw [mem_keys_upsert]; simp [rowKeysOf, or_comm]
@@ -87,7 +90,7 @@ theorem created_replay (l : List (Commit A)) : ∀ (base : Image A), base.create
 
 /-! ### every prefix recovers -/
 
-theorem prefix_recovers_aux (hA : A.Lawful) (cfg cfg' : Cfg) (ops : List Op) (nd0 : Node A)
+theorem prefix_recovers_aux (hA : A.Lawful) (cfg cfg' : Cfg) (hp : cfg.prune = none) (ops : List Op) (nd0 : Node A)
     (h0 : recover cfg (Image.empty A) = .ok nd0) (k : Nat) :
     ∃ rn, recover cfg' (replay (Image.empty A) ((runOps cfg nd0 ops).log.take k)) = .ok rn ∧
       RecoverOk A (activeTips ((runOps cfg nd0 ops).log.take k)) (rowKeys ((runOps cfg nd0 ops).log.take k))
@@ -96,7 +99,7 @@ theorem prefix_recovers_aux (hA : A.Lawful) (cfg cfg' : Cfg) (ops : List Op) (nd
   rw [r0] at h0
   have hnd : nd0' = nd0 := by injection h0
   subst hnd
-  obtain ⟨gfin, _⟩ := runOps_spec hA cfg ops nd0' g0
+  obtain ⟨gfin, _⟩ := runOps_spec hA cfg hp ops nd0' g0
   have hs := gfin.core.sound k
   rcases hs with hs | hs
   · rw [hs]
@@ -175,12 +178,7 @@ theorem initConsistent_nobest (cfg : Cfg) {nd nd' : Node A} (h : NoBest nd.log)
     · split at r
       · exact absurd r (by simp)
       · simp only at r
-        cases hr : replayBlocks cfg (blocksAbove nd.tip (forkOf nd.tip _).length) (forkOf nd.tip _) nd with
-        | error e => rw [hr] at r; exact absurd r (by simp)
-        | ok nd2 =>
-          rw [hr] at r
-          injection r with r; rw [← r]
-          exact replayBlocks_nobest cfg _ _ nd nd2 h hr
+        exact replayBlocks_nobest cfg _ _ _ nd' (show NoBest ({ nd with lastFlush := some _ } : Node A).log from h) r
 
 theorem recover_nobest (cfg : Cfg) {img : Image A} (hc : img.created = true) {rn : Node A}
     (r : recover cfg img = .ok rn) : NoBest rn.log := by
